@@ -165,10 +165,14 @@ Base2ToDecimal(M, E2) ==
 (* overflow 96 bits after the point is rounded there instead.  The two     *)
 (* registers treat an underscore at the rounding position differently      *)
 (* (the narrow one reads it as the digit 0), which is transcribed too.     *)
-(* Result: [k |-> "ok", n, sc, exact |-> TRUE] or [k |-> "invalid"].       *)
+(* Result: [k |-> "ok", n, sc, exact] or [k |-> "invalid"]; exact = FALSE  *)
+(* when digits were dropped (the rounding path).                           *)
 (***************************************************************************)
 DInv == [k |-> "invalid"]
 DOkD(neg, data, scale) == [k |-> "ok", n |-> Z(IF neg THEN -1 ELSE 1, data), sc |-> scale, exact |-> TRUE]
+\* a result that went through rounding: the text has more digits than the type holds.  WHICH neighbour is chosen (and at
+\* which scale it is written) is the library's choice; users of this result compare within one unit of the last place
+DOkR(neg, data, scale) == [k |-> "ok", n |-> Z(IF neg THEN -1 ELSE 1, data), sc |-> scale, exact |-> FALSE]
 WillOverflowU64 == MSub(MDivSmall(MSub(MPow2(64), <<1>>), 10)[1], MFromNat(255))
 DIsDigit(c) == c >= 48 /\ c <= 57
 PushDigit(data, c) == MAdd(MMulSmall(data, 10), MFromNat(c - 48))
@@ -186,7 +190,7 @@ MaybeRound(cs, data, nb, r, scale, point, neg) ==
            over == digit >= 5 /\ MCmp(d1, P96) >= 0
        IN IF over /\ scale = 0 THEN DInv
           ELSE IF ~RestOK(cs, r, point \/ nb = 46) THEN DInv
-          ELSE IF over THEN DOkD(neg, MDivSmall(MAdd(d1, <<4>>), 10)[1], scale - 1) ELSE DOkD(neg, d1, scale)
+          ELSE IF over THEN DOkR(neg, MDivSmall(MAdd(d1, <<4>>), 10)[1], scale - 1) ELSE DOkR(neg, d1, scale)
 
 RECURSIVE SkipUnderscores(_, _)
 SkipUnderscores(cs, q) == IF q <= Len(cs) /\ cs[q] = 95 THEN SkipUnderscores(cs, q + 1) ELSE q
